@@ -1,7 +1,7 @@
 (* C08 -- the context (fancy h2v2 / h1v2) main controller with max_v_samp_factor = 2: every history of
    Read / Skip ops behaves like a full decode (statement in the vocabulary of proofs/PartialSchedProofs.v). *)
 From Coq Require Import List ZArith Lia Bool.
-From LJT Require Import model.Partial proofs.PartialSchedProofs proofs.PartialCtxBase proofs.PartialCtxRead.
+From LJT Require Import model.Partial proofs.PartialSchedSkip proofs.PartialCtxBase proofs.PartialCtxRead.
 Import ListNotations.
 Local Open Scope Z_scope.
 
